@@ -64,17 +64,18 @@ func (x xlog) String() string {
 // tchain is a canonical chain in a node database plus what the harness knows
 // about it independently of that database.
 type tchain struct {
-	db       aquadb.Database
-	cfg      *params.ChainConfig
-	head     uint64
-	hashes   []common.Hash    // canonical hash by number (as the builder produced them)
-	blooms   [][]byte         // header bloom by number (as the node computed it)
-	logs     [][]xlog         // expected logs by block, in order
-	addrs    []common.Address // addresses that occur, in order of first occurrence
-	topics   []common.Hash    // topics that occur, in order of first occurrence
-	withLogs []uint64         // numbers of the blocks that hold logs
-	idx      map[uint64]*bitsIndex
-	stop     []func()
+	db        aquadb.Database
+	cfg       *params.ChainConfig
+	head      uint64
+	hashes    []common.Hash    // canonical hash by number (as the builder produced them)
+	blooms    [][]byte         // header bloom by number (as the node computed it)
+	logs      [][]xlog         // expected logs by block, in order
+	addrs     []common.Address // addresses that occur, in order of first occurrence
+	topics    []common.Hash    // topics that occur, in order of first occurrence
+	withLogs  []uint64         // numbers of the blocks that hold logs
+	idx       map[uint64]*bitsIndex
+	synthetic [][][]lg // the generated receipts, for synthetic chains (case files)
+	stop      []func()
 }
 
 func (c *tchain) close() {
@@ -137,7 +138,7 @@ func synthTxHash(block uint64, i int) common.Hash {
 // buildSynthetic writes a chain whose block n holds the receipts blocks[n]
 // (each receipt a list of logs). Block 0 is the genesis and holds nothing.
 func buildSynthetic(t fataler, blocks [][][]lg) *tchain {
-	c := &tchain{db: aquadb.NewMemDatabase(), cfg: synthConfig, head: uint64(len(blocks) - 1)}
+	c := &tchain{db: aquadb.NewMemDatabase(), cfg: synthConfig, head: uint64(len(blocks) - 1), synthetic: blocks}
 	parent := common.Hash{}
 	for n, rcpts := range blocks {
 		if n == 0 {
